@@ -388,7 +388,8 @@ def run(ctx):
     open_ids = core.open_finding_ids(PID) - set(os.environ.get("VERIF_ASSUME_FIXED", "").split(","))  # validation of fixes/*.diff
     sizes = dict(max_funcs=ctx.scale(4, 5), fuel=ctx.scale(40, 60), depth=ctx.scale(5, 6), budget_s=ctx.scale(60, 1500), shrink_s=ctx.scale(30, 240))
     n = ctx.scale(256, 32000)
-    ctx.pmap(_worker, [(subseed(ctx.seed, PID, w), n // 16, open_ids, sizes) for w in range(16)])
+    if not fuzz.only(ctx):
+        ctx.pmap(_worker, [(subseed(ctx.seed, PID, w), n // 16, open_ids, sizes) for w in range(16)])
     if not ctx.quick:
         fuzz_layer(ctx, open_ids)
 
